@@ -408,6 +408,9 @@ func (c Config) MarshalJSON() ([]byte, error) {
 				b.WriteString(`,"headers":{`)
 			}
 			for j := 0; v < n && z < n && j < n; {
+				if v+1 >= n {
+					return nil, xerr.Wrap("wc2", ErrInvalidSetting)
+				}
 				if j > 0 {
 					b.WriteByte(',')
 				}
